@@ -379,6 +379,11 @@ def classify(bad):
         if k in kinds:
             d = next(d for kk, d in bad if kk == k)
             if k == "walker":
+                import re
+
+                if re.fullmatch(r"dup-value:_v_\d+", d):
+                    # a fresh name of onnx.version_converter kept by per-node adaptation (known finding)
+                    return "dup-value:version-converter-fresh-name"
                 if d.startswith("function "):
                     return "walker-in-function:" + d.split(": ", 1)[1].split(":")[0]
                 return "walker:" + d.split(":")[0]
@@ -423,6 +428,11 @@ def observe_final_check(specs):
 
 
 HAND_SPECS = [
+    # known finding: the version converter's fresh name _v_4 in a Loop body and again in the main graph
+    {"args": ["f"], "inputs": [["x", 0]],
+     "stmts": [["loop", 1, [0], {"stmts": [["op", "rmax", 17, [3]], ["op", "identity", 19, [4]]], "outs": [5]}, 17],
+               ["op", "rmax", 17, [1]]],
+     "outputs": [["y", 2]], "drop": False, "funcs": [], "models": [], "customs": []},
     # a function whose (user-chosen) name looks like the prefixed name of an inlined node
     # (pinned tree: two nodes called Inline_0__n0_0; fixed by the second fix: commit)
     {"args": ["f"], "inputs": [["x", 0]], "stmts": [["inline", 0, [0]], ["call", 0, [1]]],
